@@ -1,29 +1,18 @@
 import RjModel.Model.Exe
+import RjModel.Lemmas.ExeLemmas
 /-! # C19 — a deployed binary is a faithful, runnable, self-propagating copy
 
 The model `Rj.Exe` is the four functions of `exe_utils.rs` on byte lists with every Rust failure mode
 explicit; it is tied to the code **byte for byte** (outputs, errors and panics) by the L1
-correspondence.  The general round-trip statement for every valid layout is *not* proved here (see
-DESIGN.md, C19: partial); what is proved: the field access lemmas the surgery rests on, and the
-negation of "a malformed executable is rejected with an error rather than a crash" by concrete
-witnesses, which replay on the real code (known finding C19-F9). -/
+correspondence.  Proved here: for **ELF64** the general round trip and the preservation statement for
+every image that meets the explicit, decidable layout predicate `ValidElf` and every payload
+(`C19_elf_roundtrip`, `C19_elf_preserved`; helper lemmas in `Lemmas/ExeLemmas.lean`); the field access
+lemmas the surgery rests on; and the negation of "a malformed executable is rejected with an error
+rather than a crash" by concrete witnesses, which replay on the real code (known finding C19-F9).
+The general statement for **PE** is *not* proved (DESIGN.md, C19: partial) - for small file alignments
+it is false of the code (`C19_pe_small_alignment_witness`, known finding C19-F10). -/
 namespace Rj.C19
 open Rj.Exe
-
-theorem length_leBytes (n v : Nat) : (leBytes n v).length = n := by
-  induction n generalizing v with
-  | zero => rfl
-  | succ k ih => simp [leBytes, ih]
-
-theorem leVal_leBytes (n v : Nat) (h : v < 256 ^ n) : leVal (leBytes n v) = v := by
-  induction n generalizing v with
-  | zero => simp at h; subst h; rfl
-  | succ k ih =>
-    have hk : v / 256 < 256 ^ k := by
-      rw [Nat.pow_succ] at h
-      exact Nat.div_lt_of_lt_mul (by rw [Nat.mul_comm]; exact h)
-    simp only [leBytes, leVal, ih _ hk, UInt8.toNat_ofNat']
-    omega
 
 /-- **Field write/read round trip**: a value written with `write_field` at an in-range offset is read
 back by `read_field`, and the vector keeps its length (the basis of every header update). -/
@@ -91,5 +80,52 @@ theorem C19_pe_small_alignment_witness :
                   decide (extractPe out [0x2e, 0x72] = .ok (some ([1, 2, 3, 4] ++ zeros 12)))
      | _ => false) = true := by
   decide +kernel
+
+/-! ### ELF64: the general statements -/
+
+/-- **ELF round trip, for every valid layout and every payload**: if the image is an ELF64 file of the
+layout `add_section_to_elf` is written for (`ValidElf`: little-endian V1 header, section header table
+last, headers of at least 40 bytes, the section-names section behind the ELF header and in front of the
+table, every section name a terminated string inside it and different from the new name, no offset
+overflow; the new name NUL-free and shorter than 32 bytes) and the sizes stay below 2^64, then adding
+the section succeeds and extracting it from the result returns exactly the payload - any number of
+sections, any position of the names section, any header size, any payload including the empty one. -/
+theorem C19_elf_roundtrip (b name payload : Bytes) (v : ValidElf b name)
+    (hsz : b.length + payload.length + 2 ^ 17 < U64) :
+    ∃ out, addElf b name payload = .ok out ∧ extractElf out name = .ok (some payload) :=
+  C19_elf_roundtrip_aux b name payload v hsz
+
+/-- **ELF preservation**: in the result, every byte below the end of the names section except the two
+header fields `e_shoff` (40..47) and `e_shnum` (60,61) is the input's; the bytes from there to the old
+section header table are the input's moved up by the inserted name (`name.length + 1`); the payload and
+then the old section header table follow, the table changed only in the names section's size (longer by
+the inserted name) and in the file offsets of the sections behind the names section (moved by the same
+amount) - so every section's contents are found, unchanged, where the result's header for it points,
+and every segment that lies in front of the names section's end loads as before. -/
+theorem C19_elf_preserved (b name payload : Bytes) (v : ValidElf b name)
+    (hsz : b.length + payload.length + 2 ^ 17 < U64) :
+    ∃ out T2, addElf b name payload = .ok out ∧ tableOk b name T2 ∧
+      (∀ j, j < eNamesOff b + eNamesSize b → ¬ (40 ≤ j ∧ j < 48) → ¬ (60 ≤ j ∧ j < 62) → out[j]? = b[j]?) ∧
+      (∀ j, eNamesOff b + eNamesSize b ≤ j → j < eShoff b → out[j + (name.length + 1)]? = b[j]?) ∧
+      (∀ j, j < eNum b * eEntsize b → out[eShoff b + (name.length + 1) + payload.length + j]? = T2[j]?) ∧
+      eShoff out = eShoff b + (name.length + 1) + payload.length ∧ eNum out = eNum b + 1 :=
+  addElf_preserved b name payload v hsz
+
+/-- a 196-byte ELF64 image: header, a names section `"\0.s\0"` at 64, the null section and the names section -/
+def elf1 : Bytes := [127, 69, 76, 70, 2, 1, 1, 0, 0, 0, 0, 0, 0, 0, 0, 0, 0, 0, 0, 0, 0, 0, 0, 0, 0, 0, 0, 0, 0, 0, 0, 0, 0, 0, 0, 0, 0, 0, 0, 0, 68, 0, 0, 0, 0, 0, 0, 0, 0, 0, 0, 0, 0, 0, 0, 0, 0, 0, 64, 0, 2, 0, 1, 0, 0, 46, 115, 0, 0, 0, 0, 0, 0, 0, 0, 0, 0, 0, 0, 0, 0, 0, 0, 0, 0, 0, 0, 0, 0, 0, 0, 0, 0, 0, 0, 0, 0, 0, 0, 0, 0, 0, 0, 0, 0, 0, 0, 0, 0, 0, 0, 0, 0, 0, 0, 0, 0, 0, 0, 0, 0, 0, 0, 0, 0, 0, 0, 0, 0, 0, 0, 0, 1, 0, 0, 0, 3, 0, 0, 0, 0, 0, 0, 0, 0, 0, 0, 0, 0, 0, 0, 0, 0, 0, 0, 0, 64, 0, 0, 0, 0, 0, 0, 0, 4, 0, 0, 0, 0, 0, 0, 0, 0, 0, 0, 0, 0, 0, 0, 0, 0, 0, 0, 0, 0, 0, 0, 0, 0, 0, 0, 0, 0, 0, 0, 0]
+
+/-- Non-vacuity: the layout predicate holds of a concrete image (and the check evaluates the same predicate,
+through the driver command `validelf`, on every generated image and on an executable linked by the
+toolchain of this machine) -/
+example : ValidElf elf1 [0x2e, 0x72] := by decide +kernel
+
+/-- ... and the conclusion computed on it (a *test* of the model on one image; the theorem is above) -/
+example : (match addElf elf1 [0x2e, 0x72] [9, 8, 7] with
+           | .ok out => decide (extractElf out [0x2e, 0x72] = .ok (some [9, 8, 7]))
+           | _ => false) = true := by
+  decide +kernel
+
+/-- the predicate is not trivially true: an image whose names section would lie inside the ELF header is refused -/
+example : ¬ ValidElf (elf1.set 160 8) [0x2e, 0x72] := by decide +kernel
 
 end Rj.C19
